@@ -91,11 +91,12 @@ impl<'a> Evaluator<'a> {
                     _ => ex[1].clone(),
                 }
             }
-            "krand" => {
+            "krand" | "kimp" => {
                 let tape = t[1].as_i64().unwrap();
-                match self.rnd.get(&(tape, "krand".to_string())) {
+                let role = t[0].as_str().unwrap().to_string();
+                match self.rnd.get(&(tape, role.clone())) {
                     Some(b) => b.clone(),
-                    None => return Err(EvalErr::NeedRnd(tape, "krand".into())),
+                    None => return Err(EvalErr::NeedRnd(tape, role)),
                 }
             }
             "i2" => {
